@@ -1,17 +1,17 @@
 ------------------------------ MODULE StoreMC ------------------------------
 (***************************************************************************)
 (* Flow A machine for one constraint store: every sequence of at most K    *)
-(* posts, the n-th drawn from GoalsAt(n), under every schedule index in    *)
+(* posts, each drawn from GoalsAfter(posted), under every schedule index in *)
 (* Sched.  The invariants are the formal core of C01, C02, C16, C17 (store *)
 (* half), C19, C20, C22; see DESIGN 3.2.  Maximal behaviours are printed   *)
 (* as CASE lines (flows B and C execute them on the real code).            *)
 (***************************************************************************)
-EXTENDS Store, Json
+EXTENDS Kanren, Json
 
 CONSTANTS K,           \* maximal number of posts
           Sched,       \* schedule indices explored
           Emit,        \* print CASE lines
-          GoalsAt(_),  \* alphabet of the n-th post
+          GoalsAfter(_), \* alphabet of the next post, given the sequence posted so far
           Vals,        \* the ground valuations the denotations are compared over
           Tag,         \* name of the configuration (copied into the CASE lines)
           Slots        \* the first post is partitioned into this many initial states
@@ -27,7 +27,7 @@ Slice(set, i) == LET seq == SetToSeq(set) IN {seq[j] : j \in {m \in 1..Len(seq) 
 Next == /\ S.ok
         /\ Len(posted) < K
         /\ slot' = slot
-        /\ \E g \in (IF Len(posted) = 0 THEN Slice(GoalsAt(1), slot) ELSE GoalsAt(Len(posted) + 1)) :
+        /\ \E g \in (IF Len(posted) = 0 THEN Slice(GoalsAfter(posted), slot) ELSE GoalsAfter(posted)) :
               S' = Post(S, g) /\ posted' = Append(posted, g)
 
 Spec == Init /\ [][Next]_vars
